@@ -88,8 +88,8 @@ theorem C18_model_is_std :
 (`n - 1` characters and the terminator fit) and a refusal otherwise - for `pathjoin` (`md_path`, `me_path`, `mh_path`,
 `md_root` of the spool, the templates of `mkdtemp` / `mkostemp`), `strlcpy` (`md_root`, `me_name`, `mh_maildir`,
 `mh_subdir`, `mh_path`, `ev_home`, `ev_tmpdir`), `pathslice` (`mh_maildir`, `mh_subdir`, `md_root` of a destination,
-the `new`/`cur` component), the name buffer of `maildir_genname`, the buffer of `expandtilde`, `defaultconf`, the host
-name. -/
+the `new`/`cur` component), the name buffer of `maildir_genname`, the buffer of `expandtilde`, the templates of
+`mkdtemp` / `mkostemp`, the host name buffer.  (`defaultconf` and the copies of HOME / TMPDIR / TZ are modelled separately, `Model/Start.lean` of package ce8.) -/
 theorem C18_limits_exact (n : Nat) :
     (∀ d f, pathjoinL (.fin n) d f = if d.length + 1 + f.length < n then some (d ++ [47] ++ f) else none) ∧
     (∀ s, strlcpyL (.fin n) s = if s.length < n then some s else none) ∧
@@ -99,11 +99,8 @@ theorem C18_limits_exact (n : Nat) :
     (∀ home r, expandTildeL (.fin n) home (126 :: r) = if home.length + r.length < n then some (home ++ r) else none) ∧
     (∀ tmpdir, pathjoinL (.fin n) tmpdir (ofString "mdsort-XXXXXXXX") =
       if tmpdir.length + 16 < n then some (tmpdir ++ [47] ++ ofString "mdsort-XXXXXXXX") else none) ∧
-    (∀ (L : Limits) home, L.pathMax = .fin n →
-      defaultconfL L home = if home.length + 13 < n then some (home ++ [47] ++ ofString ".mdsort.conf") else none) ∧
-    (∀ (L : Limits) raw, L.hostMax = .fin n → raw.hostname.length ≥ n → readenvL L raw = none) := by
-  refine ⟨fun d f => ?_, fun s => ?_, fun path b e => ?_, fun name => ?_, fun home r => ?_, fun tmpdir => ?_,
-    fun L home hL => ?_, fun L raw hL hlen => ?_⟩
+    (∀ host, readHostL (.fin n) host = if host.length < n then some (host.takeWhile (· != 46)) else none) := by
+  refine ⟨fun d f => ?_, fun s => ?_, fun path b e => ?_, fun name => ?_, fun home r => ?_, fun tmpdir => ?_, fun host => ?_⟩
   · rw [pathjoinL_exact]; simp only [Lim.fits_fin, decide_eq_true_eq]
   · rw [strlcpyL_exact]; simp only [Lim.fits_fin, decide_eq_true_eq]
   · have := pathsliceL_Exact path b e (.fin n)
@@ -115,15 +112,10 @@ theorem C18_limits_exact (n : Nat) :
     simp only [Lim.fits_fin, decide_eq_true_eq]
     have : (ofString "mdsort-XXXXXXXX").length = 15 := by decide +kernel
     rw [this]
-  · unfold defaultconfL
-    rw [hL, pathjoinL_exact]
+  · unfold readHostL
+    rw [strlcpyL_exact]
     simp only [Lim.fits_fin, decide_eq_true_eq]
-    have : (ofString ".mdsort.conf").length = 12 := by decide +kernel
-    rw [this]
-  · unfold readenvL
-    rw [hL, strlcpyL_exact]
-    have : ¬ raw.hostname.length < n := by omega
-    simp only [Lim.fits_fin, this, decide_false, Bool.false_eq_true, if_false]
+    split <;> rfl
 
 /-- No off-by-one in either direction: a result of `n - 1` characters is accepted in full, one of `n` characters is
 rejected. -/
